@@ -122,6 +122,8 @@ pub mod rec {
         m.insert("contract".into(), json!(env.contract.address.to_string()));
         m.insert("token".into(), json!(token(s)));
         m.insert("nonce".into(), json!(nonce(q)));
+        // the position of the transaction in its block, as far as the handler can see it ("-": none)
+        m.insert("tx".into(), json!(env.transaction.as_ref().map(|t| t.index.to_string()).unwrap_or_else(|| "-".to_string())));
         m.insert("sender".into(), json!(""));
         m.insert("funds".into(), json!([]));
         m
@@ -391,7 +393,7 @@ pub fn funds_pool(i: usize) -> Vec<Coin> {
     match i % 3 {
         0 => vec![],
         1 => vec![coin(5, "atom")],
-        _ => vec![coin(1, "atom"), coin(2, "btc")],
+        _ => vec![coin(2, "btc"), coin(1, "atom")],      // two coins, not in alphabetical order of their denominations
     }
 }
 
@@ -405,11 +407,13 @@ pub fn make_ctx(seq: usize) -> (Deps, Env, MessageInfo, Value) {
     let mut env = sylvia::cw_std::testing::mock_env();
     env.block.height = HEIGHTS[ix];
     env.contract.address = Addr::unchecked(format!("contract{ix}"));
+    env.transaction = if seq % 4 == 3 { None } else { Some(sylvia::cw_std::TransactionInfo { index: 10 + (seq % 4) as u32 }) };
     let funds = funds_pool(seq / 3);
     let info = MessageInfo { sender: Addr::unchecked(SENDERS[ix]), funds: funds.clone() };
     let fj: Vec<Value> = funds.iter().map(|c| json!([c.denom, c.amount.to_string()])).collect();
     let envj = json!({"height": HEIGHTS[ix].to_string(), "contract": format!("contract{ix}"), "sender": SENDERS[ix],
-        "funds": fj, "token": token, "nonce": Uint128::new(nonce).to_string()});
+        "funds": fj, "token": token, "nonce": Uint128::new(nonce).to_string(),
+        "tx": env.transaction.as_ref().map(|t| t.index.to_string()).unwrap_or_else(|| "-".to_string())});
     (deps, env, info, envj)
 }
 
